@@ -67,7 +67,7 @@ def _mk_wrappers():
             p = _simpath(path)
             if p is not None:
                 _no_kw("stat", {"dir_fd": dir_fd})
-                return fs.stat(p)
+                return fs.stat(p) if follow_symlinks else fs.lstat(p)
         return R["stat"](path, dir_fd=dir_fd, follow_symlinks=follow_symlinks)
 
     def lstat(path, *, dir_fd=None):
@@ -76,7 +76,7 @@ def _mk_wrappers():
             p = _simpath(path)
             if p is not None:
                 _no_kw("lstat", {"dir_fd": dir_fd})
-                return fs.stat(p)
+                return fs.lstat(p)
         return R["lstat"](path, dir_fd=dir_fd)
 
     def access(path, mode, **kw):
@@ -170,15 +170,24 @@ def _mk_wrappers():
             return _STATE["fs"].link(ab[0], ab[1])
         return R["link"](src, dst, **kw)
 
-    def symlink(src, dst, *a, **kw):
-        if _STATE["fs"] is not None and (_simpath(src) is not None or _simpath(dst) is not None):
-            raise _simfs.SimUnsupported("symlink")
-        return R["symlink"](src, dst, *a, **kw)
+    def symlink(src, dst, target_is_directory=False, *, dir_fd=None):
+        fs = _STATE["fs"]
+        if fs is not None:
+            p = _simpath(dst)
+            if p is not None:
+                _no_kw("symlink", {"dir_fd": dir_fd})
+                return fs.symlink(os.fspath(src), p)  # the text of a link is stored as given
+        return R["symlink"](src, dst, target_is_directory, dir_fd=dir_fd)
 
-    def readlink(path, **kw):
-        if _STATE["fs"] is not None and _simpath(path) is not None:
-            raise OSError(22, "Invalid argument", os.fspath(path))
-        return R["readlink"](path, **kw)
+    def readlink(path, *, dir_fd=None):
+        fs = _STATE["fs"]
+        if fs is not None:
+            p = _simpath(path)
+            if p is not None:
+                _no_kw("readlink", {"dir_fd": dir_fd})
+                t = fs.readlink(p)
+                return os.fsencode(t) if isinstance(path, bytes) else t
+        return R["readlink"](path, dir_fd=dir_fd)
 
     def utime(path, times=None, *, ns=None, dir_fd=None, follow_symlinks=True):
         fs = _STATE["fs"]
@@ -188,7 +197,7 @@ def _mk_wrappers():
                 _no_kw("utime", {"dir_fd": dir_fd})
                 if times is not None and ns is not None:
                     raise ValueError("utime: you may specify either 'times' or 'ns' but not both")
-                return fs.utime(p, times, ns)
+                return fs.utime(p, times, ns, follow=follow_symlinks)
         if ns is not None:
             return R["utime"](path, ns=ns, dir_fd=dir_fd, follow_symlinks=follow_symlinks)
         return R["utime"](path, times, dir_fd=dir_fd, follow_symlinks=follow_symlinks)
